@@ -183,8 +183,16 @@ class Option(Evaluatable[A]):
             _ = self.evaluate(options)
         elif self.default is not MISSING:
             self.default.validate(options)
+            if self.domain is not MISSING:
+                self.domain.validate(options)
         else:
             raise KeyNotFoundError(self.key, self)
+
+    def _domain_keys(self, options: Options) -> Set[str]:
+        return set() if self.domain is MISSING else self.domain.keys(options)
+
+    def _domain_explain(self, options: Options) -> Set[str]:
+        return set() if self.domain is MISSING else self.domain.explain(options)
 
     def keys(self, options: Options) -> Set[str]:
         """Returns the keys required by the option.
@@ -192,18 +200,21 @@ class Option(Evaluatable[A]):
         Usually this is just the provided key, but if the default value is a
         string, the keys required by the template are also returned. Similarly,
         if the default value is an Evaluatable, the keys required by the
-        Evaluatable are also returned.
+        Evaluatable are also returned. The keys required by an Evaluatable
+        domain are included as well.
         """
         if dotted_key_exists(self.key, options):
             value = get_dotted_key(self.key, options)
             if isinstance(value, str):
-                return {self.key} | Template(value).keys(options)
+                keys = {self.key} | Template(value).keys(options)
             else:
-                return {self.key}
+                keys = {self.key}
         elif self.default is not MISSING:
-            return self.default.keys(options)
+            keys = self.default.keys(options)
         else:
             raise KeyNotFoundError(self.key, self)
+
+        return keys | self._domain_keys(options)
 
     def explain(self, options: Optional[Options] = None) -> Set[str]:
         """Returns the keys required by the option."""
@@ -211,13 +222,15 @@ class Option(Evaluatable[A]):
         if dotted_key_exists(self.key, options):
             value = get_dotted_key(self.key, options)
             if isinstance(value, str):
-                return {self.key} | Template(value).explain(options)
+                keys = {self.key} | Template(value).explain(options)
             else:
-                return {self.key}
+                keys = {self.key}
         elif self.default is not MISSING:
-            return self.default.explain(options)
+            keys = self.default.explain(options)
         else:
-            return {self.key}
+            keys = {self.key}
+
+        return keys | self._domain_explain(options)
 
     def __repr__(self) -> str:
         return (
